@@ -24,26 +24,30 @@ CHECKS["C19"] = dict(
     text="Bounded symbolic model checking of the diagnostic rendering kernel: format_location with its three closures, "
          "Position::get_width/invisible inlined, LexErr::fmt and Position::union are executed path by path with the "
          "position, offset and number of source lines as free bit-vectors; z3 decides panic-freedom, that the quoted "
-         "line is line pos.start.line printed with that number, the caret run, and containment of union.",
+         "line is line pos.start.line printed with that number, the caret run, containment of union, and the CaretPos "
+         "re-basing arithmetic that places interpolation tokens inside their string.",
     note="Bounds: coordinates <= 2^31-2 and >= 1 (or invisible), <= 2^20 source lines, offset <= 1. str::lines().nth "
          "and String::from_utf8 are contract stubs; fmt machinery uninterpreted. Not claimed: that every error path "
          "attaches the right file, and fault-line localisation (whole checker).",
     design="§4 C19")
 CHECKS["C18"] = dict(
-    engine="E2 mirsym (MIR -> z3) + E1 kani", technique="symbolic execution of rustc MIR + z3 (inductive composition of State summaries); Kani/CBMC harnesses for lexer steps",
+    engine="E2 mirsym (MIR -> z3) + E1 kani", technique="symbolic execution of rustc MIR + z3 (State summaries, inductive loop invariants, one symbolic lexer step over an arbitrary ASCII stream); Kani/CBMC harnesses for the fixed-width lexer steps, State methods and keyword table",
     text="Bounded symbolic model checking of the lexer kernels: State::token/newline/space/flush_indents, Lex::new and "
          "CaretPos arithmetic from MIR over the whole integer range (<= 2^20 coordinates) with an abstract sequence "
-         "model for Vec; z3 decides span/caret exactness per step and proves Indent/Dedent balance by an inductive "
-         "step over the extracted counts (any number of lines).",
-    note="Token::width and newline counting are contract stubs in the State kernels; whole-tokenize runs, the column "
-         "after a multi-line string and consumers of positions are outside the claim.",
+         "model for Vec; one call of into_tokens with the first character symbolic over an arbitrary ASCII stream "
+         "(scanning loops by inductive invariants): span = characters consumed, caret advanced by exactly those; "
+         "Indent/Dedent balance by an inductive step over the extracted counts (any number of lines, any widths); "
+         "Kani decides the same step facts on the compiled code for the fixed-width token starts.",
+    note="Token::width comes from the source-extracted Display templates; the iterator and String are contract models "
+         "(ASCII: bytes = chars). Whole-tokenize runs, the Eof rule, re-lexing of interpolations, the doc-string pass, "
+         "the column after a multi-line string and consumers of positions are outside the claim.",
     design="§4 C18")
 
 CHECKS["C03"] = dict(
-    engine="E2 mirsym (MIR -> z3) + E1 kani", technique="symbolic execution of rustc MIR with overflow checks, z3 unreachability of every panic path; Kani/CBMC harnesses for lexer steps",
+    engine="E2 mirsym (MIR -> z3) + E1 kani", technique="symbolic execution of rustc MIR with overflow checks, z3 unreachability of every panic path (incl. the whole lexer step over an arbitrary ASCII stream); Kani/CBMC harnesses for lexer steps",
     text="Bounded symbolic model checking of panic-freedom for the position, lexer-state and diagnostic rendering "
          "kernels: every overflow assert, unwrap/expect and cast of format_location (+closures), format_err, "
-         "State::token/space/flush_indents, Lex::new and Position::get_width is a path end; z3 shows all of them "
+         "State::token/space/flush_indents, Lex::new, Position::get_width and of one whole lexer step (into_tokens, first character symbolic) is a path end; z3 shows all of them "
          "unreachable for every valid position / lexer state within the bounds, or returns values that are replayed natively.",
     note="RESTRICTED claim: lexing kernels and rendering arithmetic only. Parser, context builder, constraint generation, "
          "unification, generation, stack depth and time bounds are outside (not executable by Kani, not loop-free integer "
@@ -54,11 +58,12 @@ CHECKS["C14"] = dict(
     text="Bounded symbolic model checking at token-stream level: z3 proves over the summaries extracted from the MIR of "
          "State::token/newline/space/flush_indents that layout emission is independent of line number, pending newlines "
          "and token kind, that a newline resets (line_indent, token_this_line, column), that spaces after a token only "
-         "move the column, that equal indentation emits no layout, that flush depends on cur_indent only, and that the "
-         "parser's filter closure drops exactly Comment tokens.",
+         "move the column, that equal indentation emits no layout, that flush depends on cur_indent only, that the "
+         "parser's filter closure drops exactly Comment tokens, that parse_block skips runs of NL tokens, and that the "
+         "lexer step on CR LF leaves exactly the state of the step on LF (CR followed by anything else is an error).",
     note="Token-stream level only: that the parser is insensitive to the NUMBER of consecutive NL tokens is outside the "
-         "claim (observed counterexample: a blank line directly before `else` is rejected, DESIGN §8). CRLF is covered by "
-         "the lexer-step harnesses. Redundant parentheses belong to C10.",
+         "claim (observed counterexample: a blank line directly before `else` is rejected, DESIGN §8 O1). "
+         "Redundant parentheses belong to C10.",
     design="§4 C14")
 
 CHECKS["C10"] = dict(
@@ -79,28 +84,35 @@ CHECKS["C01"] = dict(
          "for every documented operator kind (recursive conversions uninterpreted), the printed Python operator comes "
          "from the to_py templates; z3 compares operator and operand order with the documented meaning. The Range arm "
          "of convert_range_slice is executed from MIR and its argument terms are compared with Python's range "
-         "semantics for all a, b in [-8, 8], step in [1, 4], inclusive/exclusive, with/without step.",
-    note="RESTRICTED claim (operator and range kernels only): implicit return insertion, if/match as expression, "
-         "handle -> try/except, class constructors, slices, negative steps, annotate interplay (see C11) and execution "
-         "of whole programs are outside. The parser stage (token -> node) is only covered by the replay programs.",
+         "semantics for all a, b in [-8, 8], step in [1, 4], inclusive/exclusive, with/without step. append_ret / "
+         "append_assign are executed from MIR: applied to exactly the tail positions of if/else, match, try/except and "
+         "blocks. The printer obligations of C10 (grouping is meaning) are part of this check.",
+    note="RESTRICTED claim (operator, range, tail-position and printer kernels): handle -> try/except construction, class "
+         "constructors, slices, negative steps, annotate interplay (see C11) and execution of whole programs are outside. "
+         "The parser stage (token -> node) is only covered by the replay programs. Shares the 12 known findings of C10.",
     design="§4 C01")
 
 CHECKS["C11"] = dict(
     engine="E2 mirsym (MIR -> z3)", technique="symbolic execution of rustc MIR, 2-safety (non-interference) by substitution of the flag, z3, native replay with both settings",
     text="Bounded symbolic model checking of non-interference: the readers of State::annotate are enumerated from the "
-         "MIR on every run; convert_def (all 225 paths, State setters inlined) is executed with every input free and "
-         "the observable behaviour (Result discriminant, non-annotation fields of the Core node, sequence and arguments "
-         "of all recursive conversions) under annotate=true is compared with annotate=false by z3.",
+         "MIR on every run; convert_def (all 225 paths, State setters inlined), convert_class and any further reader "
+         "with the converter signature are executed with every input free and the observable behaviour (Result "
+         "discriminant, non-annotation fields of the Core node, sequence and arguments of all recursive conversions, "
+         "directly registered imports) under annotate=true is compared with annotate=false by z3. Second channel: the "
+         "readers of the annotation slots of Core are enumerated; class.rs init is shown independent of the slot by "
+         "self-composition.",
     note="Inductive hypothesis: recursive conversions are themselves inert (their State argument is compared with the "
-         "annotate field erased); Imports is a write-only accumulator; ToPy callees only return annotations. A new reader "
-         "of the flag without an obligation makes the check inconclusive.",
+         "annotate field erased); Imports is a write-only accumulator for what Name::to_py registers; ToPy callees only "
+         "return annotations. A new reader of the flag or of an annotation slot without an obligation makes the check "
+         "inconclusive. Python evaluating annotations at definition time (forward references, DESIGN §8 O8) is outside.",
     design="§4 C11")
 
 CHECKS["C05"] = dict(
     engine="E2 mirsym (MIR -> z3)", technique="symbolic execution of rustc MIR (loop bodies from havocked loop states), z3 validity queries over uninterpreted constructor terms, native replay",
     text="Bounded symbolic model checking of the signature-enforcement kernels: one iteration of call_parameters' "
          "formal/actual zip from an arbitrary loop state (arity rule; constraint parent = declared parameter type with "
-         "its nullable flag, child = argument), the Return arm of gen_stmt, the annotated arms of id_from_var and the "
+         "its nullable flag, child = argument), the Return arm of gen_stmt, the annotated arms of id_from_var, the FunDef "
+         "arm of gen_def (body constrained against the declared return type whatever the raises clause is) and the "
          "decision block of unify_type (receiver/argument order of the superset test, error propagation, Any).",
     note="Kernels only: loops are cut at their headers (one-step semantics); that a violation is still caught in every "
          "nesting context and the accepted-exactly-when direction for whole programs are outside. Context::class / "
@@ -113,7 +125,8 @@ CHECKS["C07"] = dict(
          "environment look-up returning an arbitrary set of <= 2 (is_mut, type) entries — error iff the field is "
          "immutable, the name undefined (unless self in a class) or some visible definition immutable; check_iden_mut "
          "reports exactly the collected errors; gen_call's Reassign arm checks before it constrains; id_from_var "
-         "records `mutable && field-mutable` at every insert_var site.",
+         "records `mutable && field-mutable` at every insert_var site; branch and loop scopes do not leak a shadowing "
+         "re-definition (flow obligations shared with C09).",
     note="<= 2 definitions per name; loops cut at headers. Outside: shadowing offsets (var_mapping), tuple destructuring "
          "through match_name, fin self / fin fields in the unifier (observed: assignment to a `fin` class field through an "
          "instance is accepted — outside the encoded kernels, DESIGN §8).",
@@ -125,7 +138,8 @@ CHECKS["C08"] = dict(
          "and <= 2 caught names (class look-up and ancestor test free) returns Err iff inside a function some raised class "
          "is unknown or has no caught ancestor; the Handle arm of gen_flow passes before ∪ arms to the guarded "
          "expression and exactly the previous set to the arms and everything after; raise statements and context "
-         "function calls consult the check with the current environment.",
+         "function calls consult the check with the current environment; the environment returned by a handle keeps every "
+         "other field; Class::has_parent(&Name) (used for `raise [E]` declarations) is true iff some parent answers true.",
     note="<= 2 names per set; hierarchy depth, the try/except translation (converter) and raises of methods resolved in "
          "the unifier are outside.",
     design="§4 C08")
@@ -146,10 +160,11 @@ CHECKS["C20"] = dict(
     engine="E2 mirsym (MIR -> z3)", technique="symbolic execution of rustc MIR with bounded symbolic sets, z3 (EUF + integers) validity queries, native replay",
     text="Bounded symbolic model checking of the assignability kernels: Class::has_parent (reflexive, Any top, ancestor "
          "search over <= 2 declared parents with error propagation), TrueName::is_superset_of (nullable rules, shared with "
-         "C06), the loop body of Name::is_superset_of over <= 3 members (member-wise union rule, accumulator), and Ord for "
-         "TrueName (total order consistent with equality, under axioms for the derived StringName order).",
-    note="Outside: transitivity, inheritance chains beyond one inductive step, generics, commutativity / associativity / "
-         "idempotence of union (HashSet operations).",
+         "C06), the generics loops keep a conjunction, Class::has_parent(&Name), the loop body of Name::is_superset_of over "
+         "<= 3 members (member-wise union rule, accumulator), Ord for TrueName (total order consistent with equality, "
+         "under axioms for the derived StringName order) and the None-absorbing Name::union (looks at the merged set).",
+    note="Outside: transitivity, inheritance chains beyond one inductive step, associativity / idempotence of union "
+         "(HashSet operations).",
     design="§4 C20")
 CHECKS["C16"] = dict(
     engine="E2 mirsym (MIR -> z3)", technique="symbolic execution of rustc MIR, z3 queries over call-event terms and a bounded symbolic accumulator, native replay through python3 ast",
@@ -176,7 +191,7 @@ NOT_APPLICABLE = {
     "C04": "oracle is Python's dynamic semantics over whole programs and the subject is the whole checker (HashSet/recursion out of reach of Kani; not loop-free for the MIR executor) (DESIGN §6)",
     "C12": "quantifies over SipHash seeds, threads and process histories; Kani models neither RandomState randomness nor concurrency and hash-order iteration is not a loop-free kernel (DESIGN §6)",
     "C13": "filesystem, glob and process behaviour have no model in any available solver-based engine; the rest is whole-pipeline (DESIGN §6)",
-    "C17": "lives in extract_class/init (HashMap re-ordering, recursion over Core, Context look-ups): measured out of Kani's reach and not loop-free for the MIR executor (DESIGN §6)",
+    "C17": "the deciding code is extract_class (statements keyed and re-ordered through a HashMap<Core, (usize, Core)>, Context look-ups, recursion over Core): HashMap iteration has no model in either engine and Kani does not get through hashbrown (DESIGN §6)",
 }
 
 PENDING = {}
